@@ -559,3 +559,58 @@ fn service_time_covers_every_armed_deadline() {
     for f in &fails { println!("BOUNDED-FAIL service_time_covers_every_armed_deadline {}", f); }
     assert!(fails.is_empty());
 }
+
+/// C15 / C07 / C01: the offline-queue policy decides which USER operations survive a disconnection; the client's own packets
+/// (CONNECT, acknowledgements of inbound publishes, a written DISCONNECT) never do - whatever the policy, wherever they were when
+/// the connection ended (queued, half written, written but not flushed). Checked at the disconnection (only publish / subscribe /
+/// unsubscribe operations stay tracked) and on the wire of the next connection (exactly one CONNECT, first; none of the stale packets).
+#[test]
+fn internal_operations_never_survive_a_disconnection() {
+    let mut cases = 0u64; let mut fails: Vec<String> = Vec::new();
+    #[derive(Copy, Clone, Debug)] enum Where { Queued, HalfWritten, Unflushed }
+    #[derive(Copy, Clone, Debug)] enum What { Connect, Puback, Pubrec, UserDisconnect }
+    for policy in [OfflineQueuePolicy::PreserveAll, OfflineQueuePolicy::PreserveAcknowledged, OfflineQueuePolicy::PreserveQos1PlusPublishes, OfflineQueuePolicy::PreserveNothing] {
+    for mode in [ProtocolMode::Mqtt5, ProtocolMode::Mqtt311] { for what in [What::Connect, What::Puback, What::Pubrec, What::UserDisconnect] { for place in [Where::Queued, Where::HalfWritten, Where::Unflushed] { for with_user_op in [false, true] {
+        cases += 1;
+        let r = std::panic::catch_unwind(|| -> Result<(), String> {
+            let cfg = Cfg { policy, drain: PostReconnectQueueDrainPolicy::None, mode, retries: None, keep_alive: None, ack_timeout: None };
+            let mut h = H::new(cfg);
+            match what {
+                What::Connect => { h.open().map_err(|e| format!("open {:?}", e))?; }
+                _ => { h.connect(false, None).map_err(|e| format!("connect {:?}", e))?; }
+            }
+            if with_user_op { h.submit(Kind::Pub1); }
+            match what {
+                What::Connect => {}
+                What::Puback => { h.deliver(MqttPacket::Publish(PublishPacket { packet_id: 9, topic: "in/1".to_string(), qos: QualityOfService::AtLeastOnce, payload: Some(vec![1]), ..Default::default() }), 64).map_err(|e| format!("deliver {:?}", e))?; }
+                What::Pubrec => { h.deliver(MqttPacket::Publish(PublishPacket { packet_id: 9, topic: "in/2".to_string(), qos: QualityOfService::ExactlyOnce, payload: Some(vec![2]), ..Default::default() }), 64).map_err(|e| format!("deliver {:?}", e))?; }
+                What::UserDisconnect => { h.ps.handle_user_event(UserEventContext { event: UserEvent::Disconnect(Box::new(MqttPacket::Disconnect(DisconnectPacket::default()))), current_time: h.now }); }
+            }
+            match place {
+                Where::Queued => {}
+                Where::HalfWritten => { let _ = h.service(if matches!(what, What::Connect) { 5 } else { 4 }); }
+                Where::Unflushed => { let _ = h.service(4096); }
+            }
+            let _ = h.close();
+            h.check_wf()?;
+            for (k, op) in h.ps.operations.iter() {
+                if !matches!(&*op.packet, MqttPacket::Publish(_) | MqttPacket::Subscribe(_) | MqttPacket::Unsubscribe(_)) {
+                    return Err(format!("after the disconnection operation {} ({}) is still tracked", k, crate::mqtt::utils::mqtt_packet_to_str(&op.packet)));
+                }
+            }
+            // next connection: one CONNECT first, and nothing of the old connection's own packets
+            h.connect(true, None).map_err(|e| format!("reconnect {:?}", e))?;
+            for _ in 0..4 { let _ = h.service(4096); if h.ps.pending_write_completion { let _ = h.write_completion(); } }
+            let kinds: Vec<&'static str> = h.sent_this_connection.iter().map(|p| crate::mqtt::utils::mqtt_packet_to_str(p)).collect();
+            let n_connect = h.sent_this_connection.iter().filter(|p| matches!(&***p, MqttPacket::Connect(_))).count();
+            if !matches!(h.sent_this_connection.first().map(|p| &**p), Some(MqttPacket::Connect(_))) || n_connect != 1 { return Err(format!("second connection does not start with exactly one CONNECT: {:?}", kinds)); }
+            if h.sent_this_connection.iter().any(|p| matches!(&**p, MqttPacket::Disconnect(_) | MqttPacket::Puback(_) | MqttPacket::Pubrec(_) | MqttPacket::Pubcomp(_) | MqttPacket::Pingreq(_))) {
+                return Err(format!("a packet of the previous connection was sent on the next one: {:?}", kinds)); }
+            Ok(())
+        });
+        match r { Ok(Ok(())) => {}, Ok(Err(e)) => if fails.len() < 30 { fails.push(format!("{:?} {:?} {:?} {:?} user_op={}: {}", policy, mode, what, place, with_user_op, e)) }, Err(_) => fails.push(format!("{:?} {:?} {:?} {:?}: PANIC", policy, mode, what, place)) }
+    } } } } }
+    println!("BOUNDED internal_operations_never_survive_a_disconnection cases={} bound=4 policies x 2 versions x {{CONNECT, PUBACK, PUBREC, user DISCONNECT}} x {{queued, half written, written-not-flushed}} at the disconnection x with/without a QoS1 user publish; then one more connection", cases);
+    for f in &fails { println!("BOUNDED-FAIL internal_operations_never_survive_a_disconnection {}", f); }
+    assert!(fails.is_empty());
+}
